@@ -64,14 +64,15 @@ def cache_load(url):
             dati.fromtimestamp(os.path.getmtime(cache_file)) < (dati.now() - CACHE_AGE):
         try:
             data = urllib2.urlopen(url).read()
-            data = data.decode("utf-8")
         except (ValueError, URLError) as exc:
             msg = "Failed to load resource from '%s': %s" % (url, exc)
             exc.args = (msg,)  # needs to be a tuple
             raise exc
 
-        with open(cache_file, "w") as local_file:
-            local_file.write(str(data))
+        # Keep the bytes as they are: the XML declaration of the resource
+        # names its encoding, which need not be UTF-8.
+        with open(cache_file, "wb") as local_file:
+            local_file.write(data)
 
     return cache_file
 
